@@ -47,6 +47,8 @@ ODD_PATHS = [("zzq dir with space", "my script"), ("zzq+plus~tilde", "s+c~r"), (
 # "third-party" steps: what another extension / the user may do to IPython's hook registries between our ops
 F_OPS = ["f_rebind_ast", "f_rebind_cleanup", "f_rebind_post", "f_add_ast", "f_rm_ast", "f_filter_ast",
          "f_add_cleanup", "f_rm_cleanup", "f_rebind_matchers", "f_set_hook"]
+# third-party steps that remove pyflyby's own entries (a reset of the list, an over-eager clean-up)
+F_REMOVALS = ["f_clear_ast", "f_drop_pf_ast", "f_drop_pf_cleanup"]
 F_WRAP = "f_wrap"       # foreign advice on top of a joinpoint (kept out of the generated alphabet, see notes/C14.md)
 
 OPS = ["enable", "enable_again", "disable", "load_ext", "unload_ext", "reload_ext", "run_cell", "complete"]
@@ -564,7 +566,8 @@ def _strip_pf_lines(s):
 
 
 class ZzqForeignAst:
-    """a third party's AST transformer (identity)"""
+    """a third party's AST transformer: rewrites the string constant 'zzq_foreign_probe' (nothing else), so that
+    a cell can show whether the transformer ran"""
     n = 0
 
     def __init__(self):
@@ -572,6 +575,10 @@ class ZzqForeignAst:
         self.__name__ = "zzq_foreign_ast_%d" % ZzqForeignAst.n
 
     def visit(self, node):
+        import ast
+        for n in ast.walk(node):
+            if isinstance(n, ast.Constant) and isinstance(n.value, str) and n.value.startswith("zzq_foreign_probe"):
+                n.value = n.value + "+seen_by_" + self.__name__
         return node
 
 
@@ -607,6 +614,18 @@ def do_foreign(op):
         mine = [t for t in itm.cleanup_transforms if getattr(t, "__name__", "").startswith("zzq_foreign_cleanup")]
         if mine:
             itm.cleanup_transforms.remove(mine[0])
+    elif op == "f_clear_ast":
+        del ip.ast_transformers[:]
+    elif op == "f_drop_pf_ast":
+        ip.ast_transformers = [t for t in ip.ast_transformers if not _is_pf(t)]
+    elif op == "f_drop_pf_cleanup":
+        keep = [t for t in itm.cleanup_transforms if not _is_pf(t)]
+        itm.cleanup_transforms[:] = keep
+    elif op == "f_break_db":
+        # the user's import database file gets broken (edited into a syntax error)
+        os.environ["PYFLYBY_PATH"] = os.path.join(G["root"], "db_malformed.py")
+    elif op == "f_fix_db":
+        os.environ["PYFLYBY_PATH"] = os.path.join(G["root"], "db_good.py")
     elif op == "f_rebind_matchers":
         ip.Completer.custom_matchers = list(ip.Completer.custom_matchers)
     elif op == "f_set_hook":
@@ -747,6 +766,24 @@ def add_foreign(rng, ops):
     names = list(w)
     for _ in range(rng.choice([1, 1, 2, 2, 3])):
         ops.insert(rng.randint(0, len(ops)), rng.choices(names, weights=[w[x] for x in names])[0])
+    return ops
+
+
+def add_errors_and_removals(rng, ops):
+    """mix the error/withdraw transition (a broken database met by a cell or a completion) and third-party
+    removals of pyflyby's own entries into a lifecycle sequence"""
+    ops = list(ops)
+    r = rng.random()
+    if r < 0.55:
+        pos = rng.randint(0, len(ops))
+        seg = ["f_break_db", rng.choice(["run_cell", "run_cell", "complete"]), "f_fix_db"]
+        if rng.random() < 0.3:
+            seg.insert(2, rng.choice(["enable", "run_cell", "disable"]))
+        ops[pos:pos] = seg
+        ops.append("run_cell")
+    else:
+        ops.insert(rng.randint(0, len(ops)), rng.choice(F_REMOVALS))
+        ops += rng.choice([["disable", "enable", "run_cell"], ["unload_ext", "load_ext", "run_cell"], ["run_cell"]])
     return ops
 
 
